@@ -309,6 +309,36 @@ pub(crate) trait LayoutExt: Layout {
 
 impl<L: Layout> LayoutExt for L {}
 
+/// Variant of [`Layout::min_data_len`] which returns `None` if the minimum
+/// data length does not fit in a `usize`.
+///
+/// Constructors which pair a layout with storage must use this rather than
+/// `min_data_len`, as a length which wrapped around would allow indices that
+/// map to offsets beyond the end of the storage.
+pub(crate) fn checked_min_data_len<L: Layout>(layout: &L) -> Option<usize> {
+    if layout.shape().iter().any(|d| d == 0) {
+        return Some(0);
+    }
+    let mut max_offset: usize = 0;
+    for (size, stride) in layout.shape().iter().zip(layout.strides().iter()) {
+        let dim_offset = (size - 1).checked_mul(stride)?;
+        max_offset = max_offset.checked_add(dim_offset)?;
+    }
+    max_offset.checked_add(1)
+}
+
+/// Return the number of elements in a tensor with a given shape, ignoring
+/// dimensions of size zero, or `None` if this overflows a `usize`.
+///
+/// If this returns `Some` then none of the strides of a contiguous layout with
+/// this shape overflow.
+pub(crate) fn checked_non_zero_len<S: SizeArray>(shape: &S) -> Option<usize> {
+    shape
+        .iter()
+        .filter(|size| *size != 0)
+        .try_fold(1usize, |len, size| len.checked_mul(size))
+}
+
 /// Provides convenience methods for querying the shape and strides of a matrix.
 pub trait MatrixLayout {
     fn rows(&self) -> usize;
